@@ -226,9 +226,9 @@ func cmdCheck(args []string) int {
 			reports = append(reports, rep)
 			byPkg[hr.Pkg] = append(byPkg[hr.Pkg], rep)
 		}
-		if hr.Witness != nil {
+		for _, wit := range hr.Witnesses {
 			w := &vioReport{Harness: hr.Name, Pkg: hr.Pkg, Sig: "<done>"}
-			w.Case = replayCase{Harness: hr.Name, Model: hr.Witness.Model, Choices: hr.Witness.Choices, Params: runs[i].Params}
+			w.Case = replayCase{Harness: hr.Name, Model: wit.Model, Choices: wit.Choices, Params: runs[i].Params}
 			witnesses[hr.Pkg] = append(witnesses[hr.Pkg], w)
 		}
 	}
